@@ -1,6 +1,7 @@
 package main
 
 import (
+	"regexp"
 	"encoding/json"
 	"fmt"
 	"os"
@@ -218,7 +219,102 @@ func runProperty(p *Prog, prop, tier string, onlyFunc string) *PropRun {
 	return pr
 }
 
-func smtText(o *Obligation, negate bool) string {
+func smtText(o *Obligation, negate bool) string { return smtTextPC(o, negate, o.PC) }
+
+var declNameRe = regexp.MustCompile(`\(declare-(?:const|fun) (\S+)`)
+
+func isSymChar(c byte) bool {
+	return c != '(' && c != ')' && c != ' ' && c != '\n' && c != '\t'
+}
+
+func symbolsOf(t string, declared map[string]bool, into map[string]bool) {
+	i := 0
+	for i < len(t) {
+		if !isSymChar(t[i]) {
+			i++
+			continue
+		}
+		j := i
+		for j < len(t) && isSymChar(t[j]) {
+			j++
+		}
+		if declared[t[i:j]] {
+			into[t[i:j]] = true
+		}
+		i = j
+	}
+}
+
+// slicePC keeps the assumptions in the cone of influence of the goal. Definitions
+// "(= name term)" are followed only from the defined name to its body, so facts that merely
+// *use* a relevant value (branch conditions on derived integers, quantified facts about named
+// copies) are dropped. Dropping assumptions is sound for proving the goal; a "sat" answer on a
+// sliced obligation is never reported.
+func slicePC(o *Obligation) []string {
+	declared := map[string]bool{}
+	for _, m := range declNameRe.FindAllStringSubmatch(o.DeclText, -1) {
+		declared[m[1]] = true
+	}
+	type item struct {
+		text string
+		def  string
+		syms map[string]bool
+		used bool
+	}
+	items := make([]*item, len(o.PC))
+	for i, a := range o.PC {
+		it := &item{text: a, syms: map[string]bool{}}
+		symbolsOf(a, declared, it.syms)
+		if strings.HasPrefix(a, "(= ") {
+			rest := a[3:]
+			if sp := strings.IndexByte(rest, ' '); sp > 0 && !strings.ContainsAny(rest[:sp], "()") && declared[rest[:sp]] {
+				name := rest[:sp]
+				if strings.Contains(name, "!") && !strings.HasPrefix(name, "H.") {
+					it.def = name
+				}
+			}
+		}
+		items[i] = it
+	}
+	rel := map[string]bool{}
+	symbolsOf(o.Goal, declared, rel)
+	changed := true
+	for changed {
+		changed = false
+		for _, it := range items {
+			if it.used {
+				continue
+			}
+			take := false
+			if it.def != "" {
+				take = rel[it.def]
+			} else {
+				for sy := range it.syms {
+					if rel[sy] {
+						take = true
+						break
+					}
+				}
+			}
+			if take {
+				it.used = true
+				changed = true
+				for sy := range it.syms {
+					rel[sy] = true
+				}
+			}
+		}
+	}
+	var out []string
+	for _, it := range items {
+		if it.used {
+			out = append(out, it.text)
+		}
+	}
+	return out
+}
+
+func smtTextPC(o *Obligation, negate bool, pc []string) string {
 	var b strings.Builder
 	b.WriteString(smtPrelude)
 	b.WriteString(o.DeclText)
@@ -229,7 +325,7 @@ func smtText(o *Obligation, negate bool) string {
 	if o.NeedsLog {
 		b.WriteString(smtLog10Axioms)
 	}
-	for _, a := range o.PC {
+	for _, a := range pc {
 		b.WriteString("(assert " + a + ")\n")
 	}
 	if negate {
@@ -255,7 +351,25 @@ func solveAll(pr *PropRun, wd *workDir, timeoutS int, agree bool) {
 			f := wd.file(o.Name)
 			os.WriteFile(f, []byte(smtText(o, true)), 0o644)
 			o.File = f
-			best, all := solvePortfolio(f, timeoutS, agree)
+			first := timeoutS
+			if o.Kind != "vacuity" && !agree {
+				first = (timeoutS + 1) / 2
+			}
+			best, all := solvePortfolio(f, first, agree)
+			if best.Status == "unknown" && o.Kind != "vacuity" {
+				// second attempt on the cone-of-influence slice of the assumptions
+				sl := slicePC(o)
+				if len(sl) < len(o.PC) {
+					f2 := wd.file(o.Name + ".sliced")
+					os.WriteFile(f2, []byte(smtTextPC(o, true, sl)), 0o644)
+					b2, all2 := solvePortfolio(f2, timeoutS-first+1, agree)
+					if b2.Status == "unsat" {
+						b2.Solver += "+slice"
+						b2.Seconds += best.Seconds
+						best, all = b2, all2
+					}
+				}
+			}
 			if agree && best.Status == "unsat" {
 				n := 0
 				for _, r := range all {
